@@ -228,6 +228,14 @@ func genC07(seed uint64, run int, tier string) Scenario {
 		if r.IntN(2) == 0 {
 			sc.Ops[len(sc.Ops)-2] = OpSpec{Kind: "spawn", Target: s.Kind, Cmd: s.Cmd, Lines: s.Lines}
 		}
+		if sc.F.CloseMode == "stuck" && rdNS >= 250_000 && r.IntN(2) == 0 {
+			// the device has gone silent, the operation in flight has most of a long timeout
+			// ahead of it, and closing the transport does not wake the read: Close is bounded all
+			// the same
+			n := len(sc.Ops)
+			sc.Ops = append(sc.Ops[:n-2:n-2], OpSpec{Kind: "stall"}, sc.Ops[n-2], sc.Ops[n-1])
+			sc.TimeoutOpsUS = 8_000_000
+		}
 	}
 	sc.Ops = append(sc.Ops, OpSpec{Kind: "close"})
 	if r.IntN(3) == 0 {
@@ -354,6 +362,13 @@ func runC07(env *Env, s Scenario) {
 		case <-sr.SpawnDone:
 			env.Probe("concurrent-op-returned:" + sr.Spawned.Class)
 		default:
+			if sc.F.CloseMode == "stuck" && sr.Tr.Faults()["stall-again"] > 0 {
+				// (a silent device behind a transport whose read never returns: the operation has
+				// nothing to wake it but its own timeout; only Close itself is judged)
+				env.Probe("concurrent-op-left-to-its-timeout")
+
+				break
+			}
 			env.Fail("operation-hangs-after-close", sr.Spawned.Kind, "the %s in flight when Close was called had not returned %v after Close", sr.Spawned.Kind, settle)
 		}
 	}
